@@ -353,6 +353,9 @@ func runC12(c *Ctx, r *Rec) {
 		checkLoops(c, r, "D6-loop-progress", sms[name], exempt)
 	}
 	r.floor("D6-loop-progress", 1)
+	checkWholeRemainder(c, r, "D4-whole-remainder", st)
+	checkCursorOnlyByMatcher(c, r, "D4-cursor-moves", st)
+	checkFreshParseState(c, r, "D7-fresh-parse-state", parser)
 }
 
 func isInterfaceType(t types.Type) bool {
@@ -611,4 +614,186 @@ func checkScannerNotAbandoned(c *Ctx, r *Rec, info *types.Info, st *scanTables, 
 		}
 	}
 	r.check(bad == "", "D5-deferred-drain", construct, c.pos(entry.Pos()), "a drain of the token queue is deferred right after the scanner starts", bad)
+}
+
+// ---------------------------------------------------------------- extra scanner/parser rules
+
+// checkWholeRemainder: the text handed to the token matcher is the whole rest of the input
+// (runes[cursor:]); a window with an upper bound other than the length of the input cuts long
+// tokens (strings, fractions) in two.
+func checkWholeRemainder(c *Ctx, r *Rec, rule string, st *scanTables) {
+	if st.foundFD == nil {
+		return
+	}
+	info := c.info("cdcn")
+	fd := st.foundFD
+	construct := c.fdName(fd) + "/matcher-input"
+	var se *ast.SliceExpr
+	n := 0
+	inspectNoLit(fd.Body, func(x ast.Node) bool {
+		if s, ok := x.(*ast.SliceExpr); ok {
+			if f := selectorField(info, s.X); f != nil {
+				if _, isSlice := f.Type().Underlying().(*types.Slice); isSlice && s.Low != nil && selectorField(info, s.Low) != nil {
+					se = s
+					n++
+				}
+			}
+		}
+		return true
+	})
+	if n != 1 {
+		r.skip(rule, construct, c.pos(fd.Pos()), "the matching method does not slice the input at the cursor exactly once")
+		return
+	}
+	bad := ""
+	if se.High != nil {
+		hi := resolveInit(info, fd, se.High)
+		isLen := false
+		if call, ok := hi.(*ast.CallExpr); ok && isBuiltinCall(info, call, "len") && len(call.Args) == 1 && selectorField(info, call.Args[0]) == selectorField(info, se.X) {
+			isLen = true
+		}
+		if !isLen {
+			bad = fmt.Sprintf("the matcher is given the window %s[%s:%s] instead of the whole rest of the input: a token longer than the window (a long string, a long fraction) is cut in two or not recognised at all", exprStr(se.X), exprStr(se.Low), exprStr(se.High))
+		}
+	}
+	r.check(bad == "", rule, construct, c.pos(se.Pos()), "the matcher sees the whole rest of the input from the cursor", bad)
+}
+
+// checkCursorOnlyByMatcher: inside the scan loop the cursor is moved only by the matching
+// method and the error handler, which are followed by a new test of the loop bound; any other
+// statement of the loop body that moves it lets the matchers run on an exhausted input.
+func checkCursorOnlyByMatcher(c *Ctx, r *Rec, rule string, st *scanTables) {
+	if st.scanLoop == nil || st.scanFD == nil {
+		return
+	}
+	info := c.info("cdcn")
+	var cursor *types.Var
+	if cond, ok := ast.Unparen(st.scanLoop.Cond).(*ast.BinaryExpr); ok && st.scanLoop.Cond != nil {
+		switch cond.Op {
+		case token.LSS:
+			cursor = selectorField(info, cond.X)
+		case token.GTR:
+			cursor = selectorField(info, cond.Y)
+		}
+	}
+	construct := c.fdName(st.scanFD) + "/cursor-moves"
+	if cursor == nil {
+		r.skip(rule, construct, c.pos(st.scanLoop.Pos()), "the scan loop does not test a cursor field")
+		return
+	}
+	fw := c.fieldWrites()
+	movers := map[*ast.FuncDecl]bool{}
+	for _, w := range fw[cursor.Origin()] {
+		movers[w.In] = true
+	}
+	bad := ""
+	// top-level statements of the loop body that precede the first attempt to match
+	for _, s := range st.scanLoop.Body.List {
+		tries := false
+		inspectNoLit(s, func(x ast.Node) bool {
+			if call, ok := x.(*ast.CallExpr); ok && c.declOf(calleeOf(info, call)) == st.foundFD {
+				tries = true
+			}
+			return true
+		})
+		if tries {
+			break
+		}
+		inspectNoLit(s, func(x ast.Node) bool {
+			switch y := x.(type) {
+			case *ast.CallExpr:
+				if d := c.declOf(calleeOf(info, y)); d != nil && movers[d] && d != st.foundFD {
+					bad = fmt.Sprintf("%s, called at %s before the matchers are tried, moves the cursor %s; the loop bound is not tested again, so at the end of the input the matchers run on nothing and the error path steps past the end", d.Name.Name, c.pos(y.Pos()), cursor.Name())
+				}
+			case *ast.AssignStmt:
+				for _, l := range y.Lhs {
+					if selectorField(info, l) == cursor {
+						bad = fmt.Sprintf("the cursor %s is assigned at %s before the matchers are tried and the loop bound is not tested again", cursor.Name(), c.pos(y.Pos()))
+					}
+				}
+			case *ast.IncDecStmt:
+				if selectorField(info, y.X) == cursor {
+					bad = fmt.Sprintf("the cursor %s is stepped at %s before the matchers are tried and the loop bound is not tested again", cursor.Name(), c.pos(y.Pos()))
+				}
+			}
+			return true
+		})
+	}
+	r.check(bad == "", rule, construct, c.pos(st.scanLoop.Pos()), "between the test of the bound and the matchers nothing moves the cursor", bad)
+}
+
+// checkFreshParseState: every field of the parser that carries state during a parse (a
+// container, or a field written by the parser's methods) is re-created by ParseSource
+// before the traversal starts; otherwise what a failed parse left behind is read by the next.
+func checkFreshParseState(c *Ctx, r *Rec, rule string, parser *types.Named) {
+	info := c.info("cdcn")
+	pms := c.methodsOf(parser)
+	entry := pms["ParseSource"]
+	stt := structOf(parser)
+	if entry == nil || stt == nil {
+		return
+	}
+	fw := c.fieldWrites()
+	g := newFG(info, entry.Body)
+	var firstCall ast.Node
+	inspectNoLit(entry.Body, func(x ast.Node) bool {
+		if call, ok := x.(*ast.CallExpr); ok && firstCall == nil {
+			if cf := calleeOf(info, call); cf != nil && recvNamed(cf) != nil && recvNamed(cf).Origin() == parser.Origin() && c.declOf(cf) != nil {
+				if _, isDefer := pathParentDefer(entry.Body, call); !isDefer {
+					firstCall = call
+				}
+			}
+		}
+		return true
+	})
+	for i := 0; i < stt.NumFields(); i++ {
+		f := stt.Field(i)
+		stateful := isCollectionLike(f.Type())
+		for _, w := range fw[f.Origin()] {
+			if w.In != entry {
+				stateful = true
+			}
+		}
+		if !stateful {
+			continue
+		}
+		construct := "cdcn." + parser.Obj().Name() + "." + f.Name()
+		var assigns []ast.Node
+		inspectNoLit(entry.Body, func(x ast.Node) bool {
+			if as, ok := x.(*ast.AssignStmt); ok {
+				for _, l := range as.Lhs {
+					if selectorField(info, l) == f {
+						assigns = append(assigns, as)
+					}
+				}
+			}
+			return true
+		})
+		bad := ""
+		switch {
+		case len(assigns) == 0:
+			bad = fmt.Sprintf("ParseSource does not re-create the field %s: what a previous parse (in particular one that ended in a syntax panic) left in it is used by the next parse on the same parser", f.Name())
+		case firstCall != nil:
+			dom := false
+			for _, a := range assigns {
+				if g.nodeDominates(a, firstCall) {
+					dom = true
+				}
+			}
+			if !dom {
+				bad = fmt.Sprintf("the field %s is not re-created before the traversal starts", f.Name())
+			}
+		}
+		r.check(bad == "", rule, construct, c.pos(f.Pos()), "re-created by ParseSource before the traversal", bad)
+	}
+}
+
+// pathParentDefer: is n inside a defer statement of body?
+func pathParentDefer(body ast.Node, n ast.Node) (ast.Node, bool) {
+	for _, p := range pathTo(body, n) {
+		if d, ok := p.(*ast.DeferStmt); ok {
+			return d, true
+		}
+	}
+	return nil, false
 }
